@@ -97,7 +97,10 @@ func genPamCase(t *rapid.T) pamCase {
 			c.Opts = append(c.Opts, o)
 		}
 	}
-	c.Opts = append(c.Opts, rapid.SampledFrom([]string{"timeout=1", "timeout=1", "timeout=1", "timeout=0 timeout=1", "timeout=abc timeout=1", "timeout= timeout=1", "bogus=1 timeout=1", "timeout=1 sock="}).Draw(t, "timeoutopt"))
+	c.Opts = append(c.Opts, rapid.SampledFrom([]string{"timeout=1", "timeout=1", "timeout=1", "timeout=0 timeout=1", "timeout=abc timeout=1", "timeout= timeout=1", "bogus=1 timeout=1", "timeout=1 sock=",
+		// values that are not a positive number of seconds are ignored (with a warning) wherever they stand: the effective timeout stays 1 s
+		"timeout=1 timeout=-1", "timeout=1 timeout=0", "timeout=1 timeout=abc", "timeout=1 timeout=4294967295", "timeout=1 timeout=2147483648",
+		"timeout=1 timeout=99999999999999999999", "timeout=-1 timeout=1", "timeout=1 timeout=-0"}).Draw(t, "timeoutopt"))
 	if rapid.IntRange(0, 7).Draw(t, "silent") == 0 {
 		c.Flags = 0x8000
 	}
